@@ -33,7 +33,7 @@ fn param_type(kd: &str) -> &'static str {
         "aview" => "[]i32",
         "sview" => "S",
         "sptr" => "&[]i32",
-        "ptr" => "&i32",
+        "ptr" | "ptr_elem" | "ptr_mem" => "&i32",
         // in the signature of an extern function these are a view of / a pointer to an array without length
         "xaview" => "[]i32",
         "xsptr" => "&[]i32",
@@ -48,7 +48,7 @@ pub fn is_extern_kind(kd: &str) -> bool {
 /// the type of g's parameter: a pointer to what q stands for
 fn forward_type(kd: &str) -> &'static str {
     match kd {
-        "value" | "ptr" => "&i32",
+        "value" | "ptr" | "ptr_elem" | "ptr_mem" => "&i32",
         "word" => "&W",
         "aview" | "sptr" => "&[]i32",
         "sview" => "&S",
@@ -67,6 +67,9 @@ fn access(name: &str, kd: &str) -> String {
 fn caller_var(kd: &str) -> &'static str {
     match kd {
         "value" | "ptr" => "x",
+        // the address of an ELEMENT / of a MEMBER of a caller variable
+        "ptr_elem" => "arr[1usize]",
+        "ptr_mem" => "s.m",
         "word" => "w",
         "aview" | "sptr" | "xaview" | "xsptr" => "arr",
         "sview" => "s",
@@ -81,6 +84,38 @@ pub fn key(ps: &[Param]) -> String {
         .map(|p| if p.sc == "top" { format!("{}:{}:{}", p.kd, p.way, p.amp) } else { format!("{}:{}:{}@{}", p.kd, p.way, p.amp, p.sc) })
         .collect::<Vec<_>>()
         .join(" ")
+}
+
+/// Key of a program with its variant ("", "mainfirst", "twice", "mainfirst_twice").
+pub fn key_pv(ps: &[Param], pv: &str) -> String {
+    if pv.is_empty() { key(ps) } else { format!("{} #{}", key(ps), pv) }
+}
+
+pub fn variant(case: &Value) -> String {
+    case["pv"].as_str().unwrap_or("").to_string()
+}
+
+/// The program in variant `pv`: "mainfirst" puts the caller before the callee and its helpers, "twice" makes the
+/// call twice in a row.
+pub fn render_pv(ps: &[Param], pv: &str) -> String {
+    let plain = render(ps);
+    let mut lines: Vec<String> = plain.lines().map(|s| s.to_string()).collect();
+    if pv.contains("twice") {
+        if let Some(i) = lines.iter().position(|l| l.starts_with("\tf(")) {
+            let call = lines[i].clone();
+            lines.insert(i + 1, call);
+        }
+    }
+    if pv.contains("mainfirst") {
+        if let Some(i) = lines.iter().position(|l| l == "fn main() -> i32") {
+            let main: Vec<String> = lines.split_off(i);
+            // the two structure declarations stay first
+            let rest: Vec<String> = lines.split_off(2);
+            lines.extend(main);
+            lines.extend(rest);
+        }
+    }
+    lines.join("\n") + "\n"
 }
 
 pub fn render(ps: &[Param]) -> String {
